@@ -2,8 +2,8 @@
 import json, vlib, pmcheck
 def run(ctx, V):
     import C06
-    pmcheck.standard_run(ctx, V, ["alive", "c03", "protocol", "wedge"], extract=["Extract/ExClient.vo", "Extract/ExEnqueue.vo"], n_quick=500)
-    C06.correspond(ctx, V, n=300 if ctx.tier == "quick" else 6000)
+    pmcheck.standard_run(ctx, V, ["alive", "c03", "protocol", "wedge"], extract=["Extract/ExClient.vo", "Extract/ExEnqueue.vo"], n_quick=500, n_thorough=8000)
+    C06.correspond(ctx, V, n=300 if ctx.tier == "quick" else 4000)
 def replay(ctx, V, path):
     import C06
     return C06.replay(ctx, V, path)
